@@ -169,6 +169,19 @@ class RecordingProbaLDA(RecordingLDA):
         return np.vstack([1.0 - p, p]).T
 
 
+class RecordingBothLDA(RecordingLDA):
+    """decision_function AND predict_proba (like LogisticRegression): mokapot must use and calibrate the decision values."""
+
+    def predict_proba(self, X):
+        rec, self.record = self.record, False  # a probability query is not recorded as a scoring call
+        try:
+            z = self._decision(X)
+        finally:
+            self.record = rec
+        p = 1.0 / (1.0 + np.exp(-np.clip(z / 4.0, -30, 30)))
+        return np.vstack([1.0 - p, p]).T
+
+
 def _hash_noise(tags, seed):
     """Deterministic pseudo-noise per tag (independent of call order)."""
     t = np.asarray(tags, dtype=np.uint64)
@@ -190,6 +203,9 @@ def make_model(kind, tag_idx, train_fdr, max_iter, seed, override=False, **kw):
         return mokapot.Model(est, scaler="as-is", train_fdr=train_fdr, max_iter=max_iter, override=override, rng=seed)
     if kind == "olda":
         est = RecordingLDA(tag_idx=tag_idx, order_frac=0.8, **kw)
+        return mokapot.Model(est, scaler="as-is", train_fdr=train_fdr, max_iter=max_iter, override=override, rng=seed)
+    if kind == "blda":
+        est = RecordingBothLDA(tag_idx=tag_idx, **kw)
         return mokapot.Model(est, scaler="as-is", train_fdr=train_fdr, max_iter=max_iter, override=override, rng=seed)
     if kind == "plda":
         est = RecordingProbaLDA(tag_idx=tag_idx, **kw)
